@@ -1539,7 +1539,9 @@ class DataclassAdapter(Adapter):
             # Have to unwrap these or the dataclass check will fail
             val = val.__wrapped__
         if dataclasses.is_dataclass(val):
-            val = dataclasses.asdict(val)
+            # Shallow on purpose, nested specs encode their own values. A deep `asdict()` would also
+            # rebuild lazily decoded (proxied) list / dict fields into proxies around a generator.
+            val = {field.name: getattr(val, field.name) for field in dataclasses.fields(val)}
         return val
 
     def decode(self, val: Any, ctx: Optional[ParseContext], pod: bool = False) -> Any:
